@@ -253,6 +253,8 @@ impl Chain {
         let mut block = builder.build();
         if self.mine {
             block = mine(&self.consensus, block);
+        } else {
+            block = unmine(&self.consensus, block);
         }
         self.append(block);
         self.tip()
@@ -329,6 +331,24 @@ impl Chain {
                 .map(|b| &b.hash() == hash)
                 .unwrap_or(false)
     }
+}
+
+/// Chooses a nonce for which the PoW check FAILS (no-op on a Dummy consensus).
+pub(crate) fn unmine(consensus: &Consensus, block: BlockView) -> BlockView {
+    let engine = consensus.pow_engine();
+    let mut nonce: u128 = 0;
+    while nonce < 64 {
+        let header = block
+            .header()
+            .as_advanced_builder()
+            .nonce(nonce.pack())
+            .build();
+        if !engine.verify(&header.data()) {
+            return block.as_advanced_builder().header(header).build();
+        }
+        nonce += 1;
+    }
+    block
 }
 
 pub(crate) fn mine(consensus: &Consensus, block: BlockView) -> BlockView {
